@@ -3,6 +3,7 @@ pub mod engine;
 pub mod genfam;
 pub mod textparse;
 pub mod neutral;
+pub mod pbdecode;
 pub mod pools;
 pub mod props;
 pub mod scenario;
